@@ -665,6 +665,12 @@ func (c *Client) write(quit <-chan struct{}, p []byte) error {
 	return nil
 }
 
+// WriteNoWait is like write, yet it does not wait for pending connects. The
+// read routine must not await a reconnect, as it is the one to make it happen.
+func (c *Client) writeNoWait(p []byte) error {
+	return c.writeBuffersNoWait(net.Buffers{p})
+}
+
 // WriteBuffers submits the packet. Keep synchronised with write!
 func (c *Client) writeBuffers(quit <-chan struct{}, p net.Buffers) error {
 	conn, err := c.lockWrite(quit)
@@ -1223,7 +1229,7 @@ func (c *Client) readSlices() (message, topic []byte, err error) {
 				return nil, nil, err
 			}
 		}
-		err := c.write(nil, c.pendingAck)
+		err := c.writeNoWait(c.pendingAck)
 		if err != nil {
 			c.toOffline()
 			return nil, nil, err // keeps pendingAck to retry
@@ -1444,7 +1450,7 @@ func (c *Client) onPUBREL() error {
 		return fmt.Errorf("mqtt: internal error: ack %#x pending during PUBREL reception", c.pendingAck)
 	}
 	c.pendingAck = append(c.pendingAck, typePUBCOMP<<4, 2, byte(packetID>>8), byte(packetID))
-	err = c.write(nil, c.pendingAck)
+	err = c.writeNoWait(c.pendingAck)
 	if err != nil {
 		return err // causes resubmission of PUBCOMP
 	}
